@@ -115,7 +115,7 @@ func shapeRoot(r *rand.Rand, doc string) (string, string) {
 	issOpen := strings.Index(rest, "<saml:Issuer>")
 	issClose := strings.Index(rest, "</saml:Issuer>")
 	kinds := []string{"dup-id-around-prefixed", "dup-dest-around-prefixed", "dup-id", "dup-destination", "dup-inresponseto", "prefixed-id", "prefixed-destination", "attr-refs", "attr-whitespace", "two-issuers", "two-issuers-rev", "foreign-issuer-first", "foreign-issuer-last",
-		"nested-issuer", "issuer-comment", "issuer-cdata", "issuer-refs", "issuer-attrs", "bom", "doctype", "leading-stuff", "decl-utf8", "decl-latin1", "decl-utf16-label", "decl-ascii", "decl-standalone", "version-dup", "xml-attrs", "trailing-stuff"}
+		"nested-issuer", "no-root-issuer", "issuer-comment", "issuer-cdata", "issuer-refs", "issuer-attrs", "bom", "doctype", "leading-stuff", "decl-utf8", "decl-latin1", "decl-utf16-label", "decl-ascii", "decl-standalone", "version-dup", "xml-attrs", "trailing-stuff"}
 	k := kinds[r.IntN(len(kinds))]
 	pre := ""
 	switch k {
@@ -166,6 +166,10 @@ func shapeRoot(r *rand.Rand, doc string) (string, string) {
 	case "nested-issuer":
 		if issOpen >= 0 {
 			rest = rest[:issOpen] + `<samlp:Extensions><saml:Issuer>https://evil-idp.example/</saml:Issuer></samlp:Extensions>` + rest[issOpen:]
+		}
+	case "no-root-issuer":
+		if issOpen >= 0 && issClose > issOpen {
+			rest = rest[:issOpen] + rest[issClose+len("</saml:Issuer>"):]
 		}
 	case "issuer-comment":
 		rest = strings.Replace(rest, "<saml:Issuer>https://idp", "<saml:Issuer>https://<!-- evil.example -->idp", 1)
